@@ -501,3 +501,12 @@ CHECKS['C02'].update({
     'note': CHECKS['C02']['note'].replace("PARTIAL: for `!(...)` segments and MATCHBASE the link faithful port <-> tidy compiler is tested (decide+kernel on pattern lists, K1'-path), not proved; nested / ",
                                           "PARTIAL: nested / "),
 })
+CHECKS['C08'].update({
+    'text': CHECKS['C08']['text'] + " THIRD CLAUSE (captured text): translate_capture_text — for every pattern string and configuration, every span re.fullmatch reports "
+            "for a group of the emitted regex is text of the subject on which the BODY of that group matches in place (Re.fullmatchCap_spans + parse_repOK), and a match is "
+            "reported exactly when the regex fully matches (translate_capture_reported). Tie K2-capture-spans: the spans CPython's re.fullmatch reports vs Re.fullmatchCap on "
+            "grammar patterns x names (translate mode, str and bytes).",
+})
+CHECKS['C04'].update({
+    'text': CHECKS['C04']['text'] + " Tie K2-capture-spans: the `**` group spans re.fullmatch reports under REALPATH vs Re.fullmatchCap of the model AST (the spans _fs_match walks).",
+})
